@@ -182,18 +182,19 @@ def check_method(chk, db, fn, roles, kind, limit_err, R):
     chk.decide(s_ok, R('S'), where, '%s: %s' % (name, '; '.join(s_why) if s_why else 'advances by exactly need after success'), function=label)
 
 
-def rules(chk, db, prefix=''):
+def rules(chk, db, prefix='', only=None):
     R = lambda r: prefix + r
-    chk.rule(R('G'), 'guard need <= limit - pos (overflow-safe form) dominates every transfer', minimum=6)
-    chk.rule(R('E'), 'guard failure returns Read/WriteLimitReached without touching the wrapped object or the position', minimum=6)
-    chk.rule(R('D'), 'exactly one same-named call on the wrapped object with the caller\'s arguments', minimum=8)
-    chk.rule(R('S'), 'position advances by exactly need, once, only after wrapped success; wrapped failure returned unchanged', minimum=8)
-    chk.rule(R('P'), 'Read/WritePadding skip exactly limit - pos with the padding value and end at the limit', minimum=2)
-    chk.rule(R('H'), 'Get/PushHandle forward their argument to the wrapped object and return its status', minimum=2)
-    chk.rule(R('I'), 'position starts at 0; limit and wrapped object come from the constructor; every primitive exists', minimum=2)
+    half = 2 if only else 1
+    chk.rule(R('G'), 'guard need <= limit - pos (overflow-safe form) dominates every transfer', minimum=6 // half)
+    chk.rule(R('E'), 'guard failure returns Read/WriteLimitReached without touching the wrapped object or the position', minimum=6 // half)
+    chk.rule(R('D'), 'exactly one same-named call on the wrapped object with the caller\'s arguments', minimum=8 // half)
+    chk.rule(R('S'), 'position advances by exactly need, once, only after wrapped success; wrapped failure returned unchanged', minimum=8 // half)
+    chk.rule(R('P'), 'Read/WritePadding skip exactly limit - pos with the padding value and end at the limit', minimum=2 // half)
+    chk.rule(R('H'), 'Get/PushHandle forward their argument to the wrapped object and return its status', minimum=2 // half)
+    chk.rule(R('I'), 'position starts at 0; limit and wrapped object come from the constructor; every primitive exists', minimum=2 // half)
     by_class = {}
     for fn in db.fns:
-        if fn.get('rect') in CLASSES and 'body' in fn:
+        if fn.get('rect') in CLASSES and 'body' in fn and (only is None or fn['rect'] in only):
             by_class.setdefault(fn['rec'], []).append(fn)
     done_patterns = set()
     names_by_rect = {}
